@@ -15,7 +15,9 @@ LEVEL_TEXT = ("PARTIAL. Theorems in coq/Props/C03.v: in every state reached by a
               "placeholders are exactly the added lines in arrival order (an accepted addition that meets no stored record of its "
               "identifier appends the added line and changes no other record), so two arrival orders of the same lines, both read "
               "completely, hold the same records (Proofs/RealsP.v; documents without group merges and complement duplicates). "
-              "Not proved: equality of the reference targets and back-reference sets of two orders. That clause is decided (i) by the correspondence: every "
+              "Back-references and resolution are functions of the records, so two orders that leave no placeholder have the same "
+              "back-reference multisets and resolve the same mentions (Proofs/OrdersBackrefsP.v). All of this is about the "
+              "reference semantics; for the implementation the clause is decided (i) by the correspondence: every "
               "explored order is run on gfapy and on Model/Graph.v and compared after every line, and (ii) by the oracle: all "
               "permutations of documents of <= 6 lines and 30 shuffles of larger ones must give one canonical observation "
               "(version, written records with a link identified with its complement, identifiers, reference targets, "
